@@ -1,0 +1,24 @@
+//go:build verif
+
+package protocol
+
+import (
+	"github.com/enfein/mieru/v3/pkg/appctl/appctlpb"
+	"github.com/enfein/mieru/v3/pkg/protocol/serveruser"
+)
+
+// Exports for the external verification harness (C19). Add-only; compiled only with -tags verif.
+
+const VerifStatusQuotaExhausted = uint8(statusQuotaExhausted)
+
+// VerifCheckQuota calls Session.checkQuota on a bare server session whose policy
+// snapshot is built from policyUser (nil: no policy stored).
+func VerifCheckQuota(policyUser *appctlpb.User, userName string) (ok bool, err error) {
+	s := &Session{}
+	if policyUser != nil {
+		policies := serveruser.BuildPolicies(map[string]*appctlpb.User{policyUser.GetName(): policyUser})
+		policy := policies[policyUser.GetName()]
+		s.userPolicy.Store(&policy)
+	}
+	return s.checkQuota(userName)
+}
